@@ -36,6 +36,7 @@ type TierCfg struct {
 	Skip       bool              `json:"skip"`
 	GoPolicy   string            `json:"go_policy"`
 	SwitchHook string            `json:"switch_hook"`
+	CoroRot    int               `json:"coro_rot"`
 	ModelOnly  bool              `json:"model_only_replay"`
 }
 
@@ -194,7 +195,7 @@ func main() {
 						solvers[0].Log = f
 					}
 				}
-				ro := sym.RunOpts{AlsoProps: j.h.Also, Prop: *prop, GoPolicy: tc.GoPolicy, SwitchHook: tc.SwitchHook, Rounds: tc.Rounds, TimeoutMs: tc.TimeoutMs, CrossCheck: tc.CrossCheck}
+				ro := sym.RunOpts{AlsoProps: j.h.Also, Prop: *prop, GoPolicy: tc.GoPolicy, SwitchHook: tc.SwitchHook, CoroRot: tc.CoroRot, Rounds: tc.Rounds, TimeoutMs: tc.TimeoutMs, CrossCheck: tc.CrossCheck}
 				if ro.TimeoutMs == 0 {
 					ro.TimeoutMs = 120000
 				}
